@@ -91,6 +91,8 @@ def value_in_block(blk, local, upto=None):
             rv = s["rv"]
             if rv["k"] == "aggregate" and rv.get("agg") == "adt" and rv.get("variant"):
                 return ("variant", rv["variant"])
+            if rv["k"] == "use" and rv["op"].get("k") == "const" and rv["op"].get("ty") == "bool" and "val" in rv["op"]:
+                return ("variant", "#true" if rv["op"]["val"] else "#false")
             if rv["k"] == "use" and rv["op"].get("k") in ("move", "copy") and not rv["op"]["place"]["proj"]:
                 inner = value_in_block(blk, rv["op"]["place"]["local"], i)
                 if inner is None:
@@ -154,26 +156,75 @@ def resolve(blocks, preds, b, how, local, maps, depth):
     return out
 
 
+def fold_const_switches(blocks):
+    """`if true` / `if cfg!(..)` / a folded constant: a switch on a literal has one feasible arm; the other arm's code is dead
+    and must not count as a path (nor the literal as a 'condition' something is done under)"""
+    n = 0
+    for b in blocks:
+        t = b["term"]
+        if t is None or t["k"] != "switch":
+            continue
+        op = t["op"]
+        if op.get("k") in ("move", "copy") and not op["place"]["proj"]:
+            # `_t = const true; switchInt(move _t)`: the temporary is set in this block
+            for s in reversed(b["stmts"]):
+                if s.get("k") == "assign" and s["lhs"]["local"] == op["place"]["local"]:
+                    if not s["lhs"]["proj"] and s["rv"]["k"] == "use":
+                        op = s["rv"]["op"]
+                    break
+        if op.get("k") != "const" or "val" not in op:
+            continue
+        v = op["val"]
+        if isinstance(v, bool):
+            v = int(v)
+        if not isinstance(v, int):
+            continue
+        tgt = None
+        for val, tb in t["targets"]:
+            if val == v:
+                tgt = tb
+        if tgt is None:
+            tgt = t.get("otherwise")
+        if tgt is None:
+            continue
+        nt = {"k": "goto", "target": tgt, "line": t.get("line"), "exp": t.get("exp", False), "folded": True}
+        if "ifile" in t:
+            nt["ifile"] = t["ifile"]
+        b["term"] = nt
+        n += 1
+    return n
+
+
 def thread_switches(raw, rounds=3):
     blocks = raw["blocks"]
+    raw["folded"] = fold_const_switches(blocks)
     n_threaded = 0
     for _ in range(rounds):
         preds = preds_of(blocks)
         todo = []
         for j, J in enumerate(blocks):
             t = J["term"]
-            if t is None or t["k"] != "switch" or J.get("cleanup") or not J["stmts"] or not simple_stmts(J):
-                continue
-            last = J["stmts"][-1]
-            if last.get("k") != "assign" or last["rv"]["k"] != "discr" or last["rv"]["place"]["proj"] or last["lhs"]["proj"]:
+            if t is None or t["k"] != "switch" or J.get("cleanup") or not simple_stmts(J):
                 continue
             op = t["op"]
-            if op.get("k") not in ("move", "copy") or op["place"]["proj"] or op["place"]["local"] != last["lhs"]["local"]:
+            if op.get("k") not in ("move", "copy") or op["place"]["proj"]:
                 continue
-            X = last["rv"]["place"]["local"]
+            if t.get("op_ty") == "bool":
+                # a flag set to a literal on some arms (`a && b` as a value, `opt.is_some_and(..)` on the None arm)
+                X = op["place"]["local"]
+                variants = {"#false": 0, "#true": 1}
+            else:
+                if not J["stmts"]:
+                    continue
+                last = J["stmts"][-1]
+                if last.get("k") != "assign" or last["rv"]["k"] != "discr" or last["rv"]["place"]["proj"] or last["lhs"]["proj"]:
+                    continue
+                if op["place"]["local"] != last["lhs"]["local"]:
+                    continue
+                X = last["rv"]["place"]["local"]
+                variants = {name: idx for idx, name in last["rv"].get("variants", [])}
             if any(s.get("k") == "assign" and s["lhs"]["local"] == X for s in J["stmts"]):
                 continue
-            variants = {name: idx for idx, name in last["rv"].get("variants", [])}
             for p, how in preds.get(j, []):
                 if p == j or how not in ("goto", "call"):
                     continue
